@@ -12,7 +12,7 @@ import (
 
 func vParamsVals() int {
 	if ndTier() > 0 {
-		return 3
+		return 4
 	}
 	return 2
 }
@@ -49,6 +49,13 @@ func VerifBridge_set_params() {
 	}
 	n := 1 + ndLen("n", vParamsVals()-1)
 	set := vValset("new", n)
+	// total power stays below 2^63 (power is stake / 10^6: 2^63 would be more loya than a uint64 amount can name);
+	// SetBridgeValidatorParams doubles the total in a uint64
+	var sum uint64
+	for _, v := range set.BridgeValidatorSet {
+		sum += v.Power
+	}
+	ndAssume(sum < 1<<63)
 	nowMs := ndUint64("nowMs")
 	ndAssume(nowMs > prevTs && nowMs < c15MaxMs)
 	bctx := ctx.WithBlockTime(time.UnixMilli(int64(nowMs)))
